@@ -142,7 +142,7 @@ Print Assumptions reset_args_spec.
 (* ... and the scripted family makes both visible: the seed in every observation (feature 1 = base +
    episode), options["opt"] in the info returned by reset (key 2) *)
 Theorem reset_plumbing : forall E s seed opt a,
-  a < nag E ->
+  a < nag E -> joins_late E a = false ->
   let r := env_reset E s (seed, opt) in
   base (fst r) = match seed with Some z => z | None => base s end /\
   info_in (snd (snd r)) a 2 = opt.
@@ -152,7 +152,7 @@ Print Assumptions reset_plumbing.
 (* when the last live agent of a sub-environment finishes, its worker resets it and the observation
    returned for every agent is the first observation of the new episode; otherwise nothing is reset *)
 Theorem autoreset_first_obs : forall E agents s acts a,
-  no_agent_left (fst (raw_step E s acts)) = true -> In a agents -> a < nag E ->
+  no_agent_left (fst (raw_step E s acts)) = true -> In a agents -> a < nag E -> joins_late E a = false ->
   let r := worker_step E agents s acts in
   fst r = fst (env_reset E (fst (raw_step E s acts)) no_rarg) /\
   ord (fst r) = S (ord s) /\ tm (fst r) = 0 /\
@@ -271,8 +271,8 @@ Print Assumptions wrapper_trunc_refuted.
    an agent that leaves early, Dict observations) satisfies the hypotheses of vec_refines_singles,
    and its run does reset sub-environment 0 while sub-environment 1 is mid-episode *)
 Definition Ex_envs : list senv :=
-  [ {| eid := 0; nag := 2; lens := [1]; mode := MTrunc; leave := [None; None]; kind := KDict; unaligned := false |};
-    {| eid := 1; nag := 2; lens := [3]; mode := MTerm; leave := [Some 1; None]; kind := KDict; unaligned := false |} ].
+  [ {| eid := 0; nag := 2; lens := [1]; mode := MTrunc; leave := [None; None]; kind := KDict; unaligned := false; join := [] |};
+    {| eid := 1; nag := 2; lens := [3]; mode := MTerm; leave := [Some 1; None]; kind := KDict; unaligned := false; join := [] |} ].
 Definition Ex_st : vstate := fst (vec_reset KDict [0; 1] Ex_envs (vec_init KDict [0; 1] Ex_envs) (SInt 5%Z) (Some 9%Z)).
 Definition Ex_actions : list (dict (list Z)) := [ [(0, [1; 2]%Z); (1, [3; 4]%Z)]; [(0, [0; 1]%Z); (1, [2; 3]%Z)] ].
 Example hypotheses_satisfiable :
@@ -307,3 +307,11 @@ Theorem zip_condition_needs_aligned_dicts :
              all_done_keys tr = true /\ all_done_zip tr = false.
 Proof. exact zip_condition_needs_aligned_dicts_lemma. Qed.
 Print Assumptions zip_condition_needs_aligned_dicts.
+
+(* agents that join late: absent from what reset returns, shown as placeholders by the vector environment *)
+Theorem late_joiner_placeholder : forall E agents s ra a,
+  In a agents -> joins_late E a = true ->
+  get a (fst (snd (worker_reset E agents s ra))) [] = placeholder_obs (kind E) /\
+  has_agent (snd (snd (env_reset E s ra))) a = false.
+Proof. exact late_joiner_placeholder_lemma. Qed.
+Print Assumptions late_joiner_placeholder.
